@@ -8,7 +8,12 @@ open RedunModel RedunModel.Registry
      ren s<old> s<new_ns> s<new_name>                 registry.rename(...)
      wrap s<target> s<wrapper_name> i<woid> s<wbody>  wrapper applied to the task registered as target;
                                                       wrapper hash = T(<visible fullname>|<wbody>|<hidden hash>)
+     getn s<name>                                     registry.get(task_name=...)        (read-only)
+     geth i<oid>|N                                    registry.get(hash=<hash of the task object oid, registered or
+                                                      not any more>) ; N = a hash no task ever had   (read-only)
+     iter                                             list(registry)                                  (read-only)
    reply: <status> (tasks (s<key> i<oid> s<ns> s<name> s<hash> s<wrapped>|N)*) (counts (s<hash> i<n>)*) (hashes s<hash>*)
+   the three queries reply `ok (found i<oid>|N) <dump>` resp. `ok (iter i<oid>*) <dump>`
    status = ok | !AssertionError | !AttributeError | !RecursionError | !NotRegistered -/
 
 def dump (r : Reg) : String :=
@@ -19,12 +24,16 @@ def dump (r : Reg) : String :=
   "(tasks " ++ " ".intercalate ts ++ ") (counts " ++ " ".intercalate cs ++ ") (hashes " ++
     " ".intercalate ((taskHashes r).map atomOfStr) ++ ")"
 
+def found : Option Task → String
+  | some t => atomOfInt t.oid
+  | none => "N"
+
 def errText : Err → String
   | .assertion => "!AssertionError"
   | .attribute => "!AttributeError"
   | .recursion => "!RecursionError"
 
-def stepLine (r : Reg) (line : String) : Reg × String :=
+def stepReg (r : Reg) (known : List (Nat × H)) (line : String) : Reg × String :=
   match Sexp.parseLine line with
   | some [.atom "reset"] => (Reg.empty, "ok " ++ dump Reg.empty)
   | some [.atom "def", .atom o, .atom ns, .atom nm, .atom h] =>
@@ -51,6 +60,24 @@ def stepLine (r : Reg) (line : String) : Reg × String :=
         | (r', none) => (r', "ok " ++ dump r')
         | (r', some e) => (r', errText e ++ " " ++ dump r')
     | _, _, _, _ => (r, "bad-value")
+  | some [.atom "getn", .atom n] =>
+    match strOfAtom n with
+    | some n => (step r (.getName n), "ok (found " ++ found (get n r) ++ ") " ++ dump (step r (.getName n)))
+    | none => (r, "bad-value")
+  | some [.atom "geth", .atom o] =>
+    let h? : Option H := if o = "N" then some "NEVER" else (natOfAtom o).bind fun k => (known.find? (·.1 == k)).map (·.2)
+    match h? with
+    | some h => (step r (.getHash h), "ok (found " ++ found (getByHash h r) ++ ") " ++ dump (step r (.getHash h)))
+    | none => (r, "bad-value")
+  | some [.atom "iter"] =>
+    (step r .iterate, "ok (iter " ++ " ".intercalate (r.tasks.map fun p => atomOfInt p.2.oid) ++ ") " ++ dump (step r .iterate))
   | _ => (r, "bad-op")
 
-def main : IO Unit := do driverLoop (← IO.getStdin) Reg.empty stepLine
+/-- driver state: the registry and, for `geth`, the hash of every task object that was ever registered -/
+def stepLine (st : Reg × List (Nat × H)) (line : String) : (Reg × List (Nat × H)) × String :=
+  let (r', out) := stepReg st.1 st.2 line
+  let known := if line.startsWith "reset" then [] else st.2
+  let known' := r'.tasks.foldl (fun acc p => if acc.any (·.1 == p.2.oid) then acc else acc ++ [(p.2.oid, p.2.hash)]) known
+  ((r', known'), out)
+
+def main : IO Unit := do driverLoop (← IO.getStdin) (Reg.empty, []) stepLine
